@@ -433,6 +433,22 @@ func manyColliding[K comparable](st *c10Stats, tname string, gen func(i int) K, 
 				st.steps++
 			}
 			check("after re-inserting into the holes")
+			// whole buckets at the head of a chain become vacant while later buckets of the chain stay in use
+			for i := 0; i < n/2; i++ {
+				m.Delete(gen(i))
+				delete(ref, gen(i))
+				st.steps++
+			}
+			check("after deleting the oldest half")
+			for i := n / 2; i < n-1; i++ {
+				m.Delete(gen(i))
+				delete(ref, gen(i))
+				st.steps++
+				if i == n-8 {
+					check("after deleting all but the newest 7 keys")
+				}
+			}
+			check("after deleting all but the newest key")
 		}()
 		st.runs++
 		if problem != "" {
